@@ -6,7 +6,7 @@ suite passes with it; then runs the property's quick check (and with --all every
 On success stores /verif/seeded/<id>/{patch.diff,demo_test.go.txt,meta.json}."""
 import json, os, subprocess, sys, shutil, tempfile, time, glob
 V = os.path.dirname(os.path.dirname(os.path.abspath(__file__)))
-sd, sid = sys.argv[1], sys.argv[2]
+sd, sid = os.path.abspath(sys.argv[1]), sys.argv[2]
 run_all = "--all" in sys.argv
 ENV = dict(os.environ, GOFLAGS="-mod=mod", GOPROXY="off", GOSUMDB="off", GOTOOLCHAIN="local")
 def sh(cmd, cwd=None, env=ENV, timeout=1800):
